@@ -17,7 +17,9 @@ RULE = ("1..4 ROUNDS of [store 0..12 more rows, then impute] with the SAME imput
         "Oracle on the recorded model inputs: equal to x outside the subset; inside: the configured default, or a stored row r with "
         "input[f] == r[f] (product), one r for all f of that call (joint); the return value is a list of exactly n_samples predictions, "
         "each the model's output for the corresponding recorded input (DefaultImputer: the one prediction n times); empty subset -> every "
-        "input equals x and there are n_samples predictions; deep snapshots of x, the subset and storage.get_data() are unchanged. "
+        "input equals x and there are n_samples predictions; deep snapshots of x, the subset and storage.get_data() are unchanged - also when a model evaluation inside impute raises (every "
+        "fifth round injects such a fault); observations differ in key order and some carry an optional key: the model input must have "
+        "exactly the instance's keys in the instance's order; defaults are also given as defaultdict / dict with __missing__. "
         "Non-trivial: proper non-empty subset, >=2 distinct stored rows, n_samples>=2, x differs from every stored row on the subset; "
         "distinct by case digest.")
 ASSUMPTIONS = ["one-shot iterators are not generated as subsets (no caller passes one; re-iteration is inherent in n_samples > 1)",
@@ -57,7 +59,7 @@ def run_case(case):
         storage = c07.make(scfg)
         if tag == 'default':
             defaults = {n: num(v, mode) for n, v in zip(names, case['defaults'])}
-            imp = DefaultImputer(model, dict(defaults))
+            imp = DefaultImputer(model, cfgs.defaults_container(defaults, case.get('defaults_container', 'dict')))
         else:
             defaults = None
             imp = MarginalImputer(model, tag, storage)
@@ -65,7 +67,8 @@ def run_case(case):
         for ri, rnd in enumerate(rounds):
             for r in rnd['rows']:
                 n_rows += 1
-                storage.update({n: num(v, mode) for n, v in zip(names, r)}, ['y', n_rows])
+                storage.update(_obs(names, r, mode, n_rows % 4 if case.get('vary_keys') else 0,
+                                    n_rows if case.get('vary_keys') and n_rows % 3 == 0 else None), ['y', n_rows])
             if len(storage) == 0:
                 continue
             res = one_impute(imp, model, storage, names, mode, tag, defaults, rnd, ri)
@@ -78,9 +81,19 @@ def run_case(case):
     return Result(True, nontrivial=nt, labels=sorted(set(labels)))
 
 
+def _obs(names, values, mode, perm=0, opt=None):
+    items = [(n, num(v, mode)) for n, v in zip(names, values)]
+    if perm and len(items) > 1:
+        items = list(reversed(items)) if perm % 2 else items[1:] + items[:1]
+    x = dict(items)
+    if opt is not None:
+        x['opt0'] = num(opt, mode)      # an optional key that only some observations carry
+    return x
+
+
 def one_impute(imp, model, storage, names, mode, tag, defaults, rnd, ri):
     d = len(names)
-    x = {n: num(v, mode) for n, v in zip(names, rnd['x'])}
+    x = _obs(names, rnd['x'], mode, rnd.get('x_perm') or 0, rnd.get('x_opt'))
     sub_names = [names[i] for i in rnd['subset']]
     subset = _subset(rnd['subset_type'], sub_names)
     xs_before = [dict(r) for r in storage.get_data()[0]]
@@ -89,14 +102,32 @@ def one_impute(imp, model, storage, names, mode, tag, defaults, rnd, ri):
     subset_before = list(subset)
     n = rnd['n_samples']
     mark = len(model.calls)
+    fault_at = rnd.get('fault_at')
+    if fault_at:
+        from ..doubles import Faults, Injected
+        model.faults = Faults()
+        model.faults.reset_window(fault_at)
     try:
         if rnd.get('positional'):
             preds = imp.impute(subset, x, n)
         else:
             preds = imp.impute(feature_subset=subset, x_i=x, n_samples=n)
     except Exception as e:
-        return Result(False, key=f'C06:exception:{type(e).__name__}',
-                      detail=f'round {ri + 1}: impute raised {e!r} (subset type {rnd["subset_type"]}, {tag})')
+        injected = fault_at and type(e).__name__ == 'Injected'
+        model.faults = None
+        if not injected:
+            return Result(False, key=f'C06:exception:{type(e).__name__}',
+                          detail=f'round {ri + 1}: impute raised {e!r} (subset type {rnd["subset_type"]}, {tag})')
+        # a failing model evaluation: the exception propagated; nothing may have been modified
+        if x != x_before or list(x) != list(x_before):
+            return Result(False, key=f'C06:{tag}:instance-modified-after-fault',
+                          detail=f'round {ri + 1}: model evaluation {fault_at} raised; x_i was left as {x!r} instead of {x_before!r}')
+        if list(subset) != subset_before:
+            return Result(False, key=f'C06:{tag}:subset-modified-after-fault', detail='subset changed')
+        if [dict(r) for r in storage.get_data()[0]] != xs_before or list(storage.get_data()[1]) != ys_before:
+            return Result(False, key=f'C06:{tag}:storage-modified-after-fault', detail='storage content changed by a failed impute')
+        return False, ['fault_injected']
+    model.faults = None
     calls = model.calls[mark:]
     where = f'round {ri + 1}: '
     if x != x_before or list(x) != list(x_before):
@@ -120,7 +151,10 @@ def one_impute(imp, model, storage, names, mode, tag, defaults, rnd, ri):
     stored = xs_before
     for inp, _ids, out in calls:
         if set(inp) != set(x):
-            return Result(False, key=f'C06:{tag}:input-keys', detail=where + f'model input has keys {list(inp)!r}')
+            return Result(False, key=f'C06:{tag}:input-keys', detail=where + f'model input has keys {list(inp)!r}, the instance has {list(x)!r}')
+        if list(inp) != list(x):
+            # the library's own array-based wrappers read a dict positionally when no feature names are given
+            return Result(False, key=f'C06:{tag}:input-key-order', detail=where + f'model input lists its keys as {list(inp)!r}, the instance as {list(x)!r}')
         for f in names:
             if f not in sub_names and not (inp[f] == x[f]):
                 return Result(False, key=f'C06:{tag}:outside-subset-changed', detail=where + f'feature {f!r} outside the subset {sub_names!r} is {inp[f]!r}, x has {x[f]!r}')
@@ -165,13 +199,19 @@ def cases(draw):
         else:
             size = draw(st.integers(1, d - 1))
             subset = draw(st.permutations(list(range(d))))[:size]
+        n_samples = draw(st.sampled_from([1, 2, 2, 3, 4]))
         rounds.append({'rows': rows, 'x': x, 'subset': list(subset), 'subset_type': draw(st.sampled_from(SUBSET_TYPES)),
-                       'n_samples': draw(st.sampled_from([1, 2, 2, 3, 4])), 'positional': draw(st.booleans())})
+                       'n_samples': n_samples, 'positional': draw(st.booleans()),
+                       'x_perm': draw(st.sampled_from([0, 0, 1, 2])), 'x_opt': draw(st.sampled_from([None, None, 5])),
+                       # every fifth round: the model raises at one of its evaluations inside impute
+                       'fault_at': draw(st.integers(1, n_samples)) if draw(st.integers(0, 4)) == 0 else None})
     return {
         'names': names, 'mode': draw(st.sampled_from(['exact', 'float'])),
         'spec': draw(cfgs.model_st(d)), 'storage': draw(cfgs.storage_st()), 'rounds': rounds,
         'imputer': draw(st.sampled_from(['joint', 'product', 'default', 'joint', 'product'])),
         'defaults': [draw(st.integers(-3, 3)) for _ in range(d)], 'script': draw(gen.script),
+        'defaults_container': draw(st.sampled_from(['dict', 'dict', 'defaultdict', 'missing'])),
+        'vary_keys': draw(st.booleans()),      # stored observations differ in key order and some carry an optional key
     }
 
 
